@@ -220,11 +220,18 @@ func (t *ipTransport) XHMURI() (string, error) {
 // isPaired returns true when the transport is already paired
 func (t *ipTransport) isPaired() bool {
 
-	// If more than one entity is stored in the database, we are paired with a device.
-	// The transport itself is a device and is stored in the database, therefore
-	// we have to check for more than one entity.
-	if es, err := t.database.Entities(); err == nil && len(es) > 1 {
-		return true
+	// A controller is stored with its public key only. An entity with a private
+	// key is a key pair of the accessory itself: the one in use, or one left
+	// behind by a start which did not complete. Those are not pairings.
+	es, err := t.database.Entities()
+	if err != nil {
+		return false
+	}
+
+	for _, e := range es {
+		if len(e.PrivateKey) == 0 {
+			return true
+		}
 	}
 
 	return false
